@@ -7,6 +7,8 @@ import "verif/vfc"
 
 func VFRun(env *vfc.Env) {
 	switch env.Mode {
+	case "qlz.c10":
+		vfC10(env)
 	default:
 		env.Res.Inconc("unknown mode " + env.Mode)
 	}
